@@ -890,6 +890,8 @@ def oracle_life(sc, obs):
         return None
     if obs.get("pids_alive_after"):
         return f"test processes {obs['pids_alive_after']} still alive after nextest exited"
+    # signals are sent in order; those scheduled after nextest had already exited were never sent
+    sc = dict(sc, sigs=list(sc["sigs"])[:len(obs.get("sent", sc["sigs"]))])
     u = sc["u"]
     eps = 0.45 * u
     stops = stopped_intervals(sc)
@@ -1180,7 +1182,10 @@ def life_stage(chk, rig, families, tag, r, thorough=False):
     for f in families:
         scs += f(r)
         if thorough:
-            scs += [s for s in f(r) if s not in scs]
+            for _ in range(3):
+                scs += [s for s in f(r) if s not in scs]
+    if thorough:
+        scs += life_random(r, 16)
     check_life_family(chk, rig, scs, tag)
     return scs
 
@@ -1265,3 +1270,28 @@ def handover_race_stage(chk, rig, trials=24, fillers=60, par=3):
                                       f"started {hits[0]['retry_after_cont_ms']:.0f} ms after SIGCONT",
                                runs=hits[:3], scenario=scen, config=cfg))
     return len(hits)
+
+
+def life_random(r, n=12):
+    """random whole-life scenarios: a stop/continue window placed inside attempt 1, the first delay or attempt 2,
+    optionally followed by a shutdown signal or an information request"""
+    scs = []
+    for _ in range(n):
+        retries = r.choice([1, 2])
+        atts = [_att(r.choice([2.5, 3.5]), 1) for _ in range(retries + 1)]
+        atts[-1]["exit"] = r.choice([0, 1])
+        if retries == 2 and r.random() < 0.5:
+            atts[1]["exit"] = 0
+        d = r.choice([3, 4, 5])
+        where = r.choice(["attempt-1", "delay-1", "attempt-2"])
+        t1 = {"attempt-1": 1.5, "delay-1": atts[0]["dur"] + 1.5, "attempt-2": atts[0]["dur"] + d + 1.0}[where]
+        ln = r.choice([3, 4])
+        sigs = [(t1, "TSTP"), (t1 + ln, "CONT")]
+        x = r.random()
+        if x < 0.3:
+            sigs.append((t1 + ln + r.choice([1, 2, 3]), r.choice(["INT", "TERM", "HUP", "QUIT"])))
+        elif x < 0.55:
+            sigs.append((t1 + ln + r.choice([1, 2, 3]), "USR1"))
+        scs.append(life_base(family="random:" + where, retries=retries, delay=d, attempts=atts, sigs=sigs,
+                             backoff=r.choice(["fixed", "fixed", "exponential"])))
+    return scs
